@@ -7,7 +7,7 @@
      [k |-> "lit", c]  [k |-> "cls", s, neg]  [k |-> "wcls", neg]  [k |-> "dot"]
      [k |-> "cat", a, b]  [k |-> "alt", a, b]  [k |-> "rep", a, min, max, g]
      [k |-> "grp", a, cap]  [k |-> "look", l]   l \in {"bol","eol","wb","nwb","bot"}
-   opts: [ci, smart, word, line, crlf, nul, inv \in BOOLEAN]                                  *)
+   opts: [ci, smart, word, line, crlf, nul, inv, dotall \in BOOLEAN]                                  *)
 EXTENDS RegexSem
 
 SA == 1  SB == 2  SUA == 3  SUB == 4  SUS == 5  SD0 == 6  SSP == 7  SDASH == 8  SDOT == 9
@@ -50,7 +50,7 @@ Lower(u, ci, o, g) ==
     [] u.k = "cls" -> LET s1 == IF ci THEN FoldSet(u.s) ELSE u.s IN
                       << Set(IF u.neg THEN ValidSyms \ s1 ELSE s1), g >>
     [] u.k = "wcls" -> << Set(IF u.neg THEN ValidSyms \ WordSyms ELSE WordSyms), g >>
-    [] u.k = "dot" -> << Set(ValidSyms \ ({SLF} \cup (IF o.crlf THEN {SCR} ELSE {}))), g >>
+    [] u.k = "dot" -> << Set(IF o.dotall THEN ValidSyms ELSE ValidSyms \ ({SLF} \cup (IF o.crlf THEN {SCR} ELSE {}))), g >>
     [] u.k = "cat" -> LET x == Lower(u.a, ci, o, g) y == Lower(u.b, ci, o, x[2]) IN << Cat(x[1], y[1]), y[2] >>
     [] u.k = "alt" -> LET x == Lower(u.a, ci, o, g) y == Lower(u.b, ci, o, x[2]) IN << Alt(x[1], y[1]), y[2] >>
     [] u.k = "rep" -> LET x == Lower(u.a, ci, o, g) IN << Rep(x[1], u.min, u.max, u.g), x[2] >>
